@@ -35,8 +35,8 @@ def f2j(x):
 
 
 def gen_seq(rng, tier):
-    n = rng.choice([0, 1, 2, 3, 5, 10, 30, 100, 300]) if tier != 'thorough' else rng.choice([0, 1, 2, 3, 10, 100, 1000, 3000, 10000])
-    kind = rng.choice(['offset', 'offset', 'scale', 'const', 'ints', 'centred', 'mixed', 'zeros', 'uniform', 'bigsmall'])
+    n = rng.choice([0, 1, 2, 3, 5, 10, 30, 64, 100, 128, 256, 300]) if tier != 'thorough' else rng.choice([0, 1, 2, 3, 10, 100, 128, 512, 1000, 1024, 3000, 4096, 10000])
+    kind = rng.choice(['offset', 'offset', 'scale', 'const', 'ints', 'centred', 'mixed', 'zeros', 'uniform', 'bigsmall', 'nonneg', 'nonpos'])
     if kind == 'offset':
         off = rng.choice([1e3, 1e6, -1e6, 12345.678])
         sd = rng.choice([1.0, 0.001, 1.0])
@@ -61,6 +61,10 @@ def gen_seq(rng, tier):
         # alternating magnitudes: additions that really round; grouped by parity the small ones form their own key
         big = rng.choice([1e16, -1e16, 3e17])
         xs = [(big if i == 0 else rng.choice([1.0, 1.0, 0.5, 3.0])) for i in range(n)]
+    elif kind in ('nonneg', 'nonpos'):
+        # the running minimum (maximum) becomes exactly 0 / 0.0 / -0.0 and later items follow
+        sg = 1 if kind == 'nonneg' else -1
+        xs = [sg * rng.choice([0, 0, 1, 2, 5, 0.0, 3.5, -0.0 if sg < 0 else 0.0]) for _ in range(n)]
     elif kind == 'zeros':
         xs = [0.0] * n
     else:
@@ -75,6 +79,14 @@ def _cases(tier, rng):
     yield {'kind': 'mux', 'term': [['fvariance', None, False]], 'items': [1, 2, 4]}
     yield {'kind': 'plain', 'term': [['variance', None, False]], 'items': [f2j(1e6 + 0.1), f2j(1e6 + 0.2), f2j(1e6 + 0.4)]}
     yield {'kind': 'mux', 'term': [['variance', None, False]], 'items': [0, 1, 2, 3, 4]}
+    for op in ('min', 'max'):
+        for red in (False, True):
+            sg = 1 if op == 'min' else -1
+            yield {'kind': 'plain', 'term': [[op, None, red]], 'items': [sg * 3, 0, sg * 5, sg * 1]}
+            yield {'kind': 'plain', 'term': [[op, None, red]], 'items': [f2j(sg * 7.0), f2j(0.0), f2j(sg * 2.5)]}
+    for n_ in (128, 256):
+        for red in (False, True):
+            yield {'kind': 'mux', 'term': [['fvariance', None, red]], 'items': [f2j(float((i * 37) % 11)) for i in range(n_)]}
     n = {'quick': 400, 'thorough': 5000, 'search': 400}[tier]
     for _ in range(n):
         op = rng.choice(OPS)
@@ -255,4 +267,7 @@ def cases(tier, rng):
 
 
 def oracle(case, r):
-    return muxprop.prelude_violation(case, r) or _oracle(case, r)
+    v = muxprop.prelude_violation(case, r)
+    if v or case.get('share'):
+        return v        # the shared-operator variant wraps the pipeline in a tee_map: judged against separately built operators only
+    return _oracle(case, r)
